@@ -528,11 +528,85 @@ def pure_value_memo(fn, mod):
     return True
 
 
-def _memo_exempt(mod, node):
+def _slot_wrapper_type_names(mod):
+    """module-level names bound to ``type(<C>.__init__)`` for ``object`` or a module-level class without bases and
+    without an ``__init__`` of its own: the type of the interpreter's slot wrappers"""
+    bare = set(["object"])
+    for st in mod.tree.body:
+        if isinstance(st, ast.ClassDef) and not st.bases and not st.keywords and not st.decorator_list and not any(isinstance(x, (ast.FunctionDef, ast.AsyncFunctionDef)) and x.name in ("__init__", "__getattr__", "__getattribute__") for x in st.body) and not any(isinstance(x, ast.Assign) for x in st.body):
+            bare.add(st.name)
+    out, seen = set(), {}
+    for st in ast.walk(mod.tree):
+        if isinstance(st, ast.Assign):
+            for t in st.targets:
+                if isinstance(t, ast.Name):
+                    seen.setdefault(t.id, []).append(st)
+    for name, sts in seen.items():
+        if len(sts) == 1 and sts[0] in mod.tree.body:
+            v = sts[0].value
+            if isinstance(v, ast.Call) and src_of(v.func) == "type" and len(v.args) == 1 and not v.keywords and isinstance(v.args[0], ast.Attribute) and v.args[0].attr == "__init__" and isinstance(v.args[0].value, ast.Name) and v.args[0].value.id in bare:
+                out.add(name)
+    return out
+
+
+def slot_wrapper_memo(fn, mod):
+    """A memo keyed by one of the interpreter's slot wrappers (``object.__setattr__`` ...): they are immutable, hash
+    and compare by identity, the cache keeps its key alive (no recycled ``id``), and their signature is wired into
+    the interpreter.  Accepted when every use of the function is a call ``f(x)`` under ``if type(x) is K`` /
+    ``isinstance(x, K)`` with ``K`` the slot-wrapper type, the body looks at nothing but the parameter, builtins and
+    standard-library modules, and every ``return`` hands out a fresh ``tuple(...)`` / ``frozenset(...)``."""
+    a = fn.args
+    params = a.posonlyargs + a.args + a.kwonlyargs
+    if a.vararg or a.kwarg or len(params) != 1 or fn not in mod.tree.body:
+        return False
+    kinds = _slot_wrapper_type_names(mod)
+    if not kinds:
+        return False
+    pname = params[0].arg
+    rets = [x for x in ast.walk(fn) if isinstance(x, ast.Return)]
+    if not rets or not all(isinstance(r.value, ast.Call) and src_of(r.value.func) in ("tuple", "frozenset") for r in rets):
+        return False
+    local = set(n.id for n in ast.walk(fn) if isinstance(n, ast.Name) and isinstance(n.ctx, ast.Store))
+    for st in fn.body:
+        for sub in ast.walk(st):
+            if isinstance(sub, (ast.FunctionDef, ast.AsyncFunctionDef, ast.Lambda, ast.ClassDef, ast.Global, ast.Nonlocal, ast.Yield, ast.YieldFrom, ast.Await)):
+                return False
+            if isinstance(sub, ast.Name) and isinstance(sub.ctx, ast.Load):
+                if sub.id == pname or sub.id in local or hasattr(__import__("builtins"), sub.id):
+                    continue
+                imported = mod.imports.get(sub.id, "")
+                if imported and not imported.startswith("icontract") and "." not in imported:
+                    continue
+                return False
+    # every reference is a guarded call
+    guarded = set()
+    for node in ast.walk(mod.tree):
+        if isinstance(node, ast.If):
+            t = node.test
+            x = None
+            if isinstance(t, ast.Compare) and len(t.ops) == 1 and isinstance(t.ops[0], ast.Is) and isinstance(t.left, ast.Call) and src_of(t.left.func) == "type" and len(t.left.args) == 1 and isinstance(t.comparators[0], ast.Name) and t.comparators[0].id in kinds:
+                x = t.left.args[0]
+            elif isinstance(t, ast.Call) and src_of(t.func) == "isinstance" and len(t.args) == 2 and isinstance(t.args[1], ast.Name) and t.args[1].id in kinds:
+                x = t.args[0]
+            if isinstance(x, ast.Name):
+                stores = any(isinstance(y, ast.Name) and y.id == x.id and isinstance(y.ctx, (ast.Store, ast.Del)) for b in node.body for y in ast.walk(b))
+                if not stores:
+                    for b in node.body:
+                        for c in ast.walk(b):
+                            if isinstance(c, ast.Call) and isinstance(c.func, ast.Name) and c.func.id == fn.name and len(c.args) == 1 and not c.keywords and isinstance(c.args[0], ast.Name) and c.args[0].id == x.id:
+                                guarded.add(id(c.func))
+    refs = [n for n in ast.walk(mod.tree) if isinstance(n, ast.Name) and n.id == fn.name]
+    return bool(refs) and all(id(r) in guarded for r in refs)
+
+
+def _memo_exempt(mod, node, model=None):
     """the decorator ``node`` (or a part of it) sits on a function of ``mod`` that is a pure value memo"""
     for fn in ast.walk(mod.tree):
         if isinstance(fn, ast.FunctionDef) and any(node is x for d in fn.decorator_list for x in ast.walk(d)):
-            return pure_value_memo(fn, mod)
+            if pure_value_memo(fn, mod):
+                return True
+            elsewhere = model is None or any((isinstance(x, ast.Attribute) and x.attr == fn.name) or (isinstance(x, ast.alias) and x.name == fn.name) or (isinstance(x, ast.Constant) and x.value == fn.name) for m in model.modules.values() for x in ast.walk(m.tree))
+            return not elsewhere and slot_wrapper_memo(fn, mod)
     return False
 
 
@@ -550,7 +624,7 @@ def no_memo(run, model, rule="C12.no-memo"):
                 f = sub
             elif isinstance(sub, ast.Name) and sub.id in MEMOISERS and mod.imports.get(sub.id, "").startswith("functools."):
                 f = sub
-            if f is not None and not _memo_exempt(mod, f):
+            if f is not None and not _memo_exempt(mod, f, model):
                 bad.append(f)
         if bad:
             for f in bad[:3]:
